@@ -37,7 +37,13 @@ def coded(n, start=0):
     return (_PERIOD * ((n + off) // 251 + 2))[off:off + n]
 
 
-_CODED = coded(12 * 1012 + 64)
+_CODED = coded(1200 * 1012 + 64)
+# the same stream with block-aligned and unaligned stretches of the fill byte, zeros and trailer look-alikes in it
+_FILLY = bytearray(_CODED)
+for _k, _off, _n, _b in ((2, 0, 1012, 0x40), (5, 0, 2024, 0x40), (9, 500, 1012, 0x40), (11, 0, 1012, 0x00), (13, 1010, 4, 0x40),
+                         (70, 0, 1012, 0x40), (300, 0, 3036, 0x40)):
+    _FILLY[_k * 1012 + _off:_k * 1012 + _off + _n] = bytes([_b]) * _n
+_FILLY = bytes(_FILLY)
 
 
 def prepare(ctx):
@@ -76,6 +82,27 @@ def cases(ctx):
         ctx.exhaustive_subspace('residues x 3 chunkings x next write length 0..3036', len(residues) * 3 * (MAXLEN + 1))
         if ctx.tier == 'thorough':
             ctx.exhaustive_subspace('all 1012 residues', 1012)
+    # single large writes: above 64 KiB, exact block fits for large k, binary sizes, with 0..2 small writes before
+    big = [1012 * k for k in (64, 65, 66, 67, 100, 128, 129, 1037)] + [65536, 65537, 66792, 70000, 131072, 262144, 1 << 20,
+                                                                        1012 * 66 - 5, 1012 * 66 + 5, 1012 * 70 - 1012 + 1]
+    for j, n in enumerate(big):
+        for pre in ([], [5], [1012], [2024], [1007, 5], [100]):
+            if ctx.mine(i):
+                yield {'kind': 'history', 'writes': pre + [n], 'fin': ('finalise', 'seek', 'close')[j % 3], 'content': 'coded'}
+            i += 1
+            if ctx.mine(i):
+                # a write that lands exactly on a block edge from the current state
+                need = (1012 - sum(pre) % 1012) % 1012 + n // 1012 * 1012
+                yield {'kind': 'history', 'writes': pre + [need], 'fin': 'finalise', 'content': 'filly'}
+            i += 1
+    # content with fill-byte stretches, for the streaming blocker and the one-shot function
+    for total in [1012 * k + d for k in (3, 6, 7, 10, 12, 14, 16, 71, 303) for d in (0, 1, 500, 1011)]:
+        if ctx.mine(i):
+            yield {'kind': 'history', 'writes': [total], 'fin': 'finalise', 'content': 'filly'}
+        i += 1
+        if ctx.mine(i):
+            yield {'kind': 'history', 'writes': [total // 3, total - total // 3], 'fin': 'close', 'content': 'filly'}
+        i += 1
     # seeded long histories
     n_hist = 400 if ctx.tier == 'quick' else 6000
     rng = ctx.rng('hist')
@@ -85,12 +112,14 @@ def cases(ctx):
         for _ in range(k):
             top = rng.choice([4, 40, 400, 1012, 1013, 2024, 4100])
             lens.append(rng.choice([0, 1, 1011, 1012, 1013, 2024]) if rng.random() < 0.15 else rng.randint(0, top))
-        yield {'kind': 'history', 'writes': lens, 'fin': rng.choice(['finalise', 'seek', 'close'])}
+        yield {'kind': 'history', 'writes': lens, 'fin': rng.choice(['finalise', 'seek', 'close']),
+               'content': rng.choice(['coded', 'coded', 'filly'])}
 
 
-def drive(ctx, writes, fin):
+def drive(ctx, writes, fin, src=None):
     """Run the real blocker.  Returns (outcome, file bytes | detail, remaining_chars trail)."""
     m = ctx.mciipm
+    _CODED = src or globals()['_CODED']
     f = KeepBytesIO()
     trail = []
 
@@ -115,9 +144,9 @@ def drive(ctx, writes, fin):
     return 'ok', out, trail
 
 
-def oneshot(ctx, total):
+def oneshot(ctx, total, data=None):
     m = ctx.mciipm
-    src, dst = io.BytesIO(_CODED[:total]), io.BytesIO()
+    src, dst = io.BytesIO((data or _CODED)[:total]), io.BytesIO()
     kind, val = ctx.call(m.block_1014, src, dst, budget=20000 + 100 * (total // 1012 + 1))
     if kind != 'ok':
         return kind, val
@@ -149,9 +178,10 @@ def report(ctx, case, mech, detail):
     ctx.violation(mech, {'case': case, 'detail': detail})
 
 
-def judge_one(ctx, writes, fin, case_for_replay):
+def judge_one(ctx, writes, fin, case_for_replay, src=None):
     total = sum(writes)
-    kind, out, trail = drive(ctx, writes, fin)
+    _CODED = src or globals()['_CODED']
+    kind, out, trail = drive(ctx, writes, fin, src)
     ctx.count('Block1014.write calls', len(writes))
     ctx.count('finalised via ' + fin)
     for rc in trail:
@@ -182,15 +212,19 @@ def first_diff(a, b):
 def judge(ctx, case):
     if case['kind'] == 'history':
         writes, fin = case['writes'], case['fin']
-        ok, _ = judge_one(ctx, writes, fin, case)
+        src = _FILLY if case.get('content') == 'filly' else _CODED
+        ctx.seen('content classes', case.get('content', 'coded'))
+        if max(writes or [0]) > 65536:
+            ctx.count('histories with a single write above 64 KiB')
+        ok, _ = judge_one(ctx, writes, fin, case, src)
         total = sum(writes)
-        k2, o2 = oneshot(ctx, total)
+        k2, o2 = oneshot(ctx, total, src)
         if k2 != 'ok':
             report(ctx, case, 'oneshot:%s' % (k2 if k2 == 'steps' else 'exception:' + type(o2).__name__), {'detail': repr(o2)})
-        elif o2 != ref.block(_CODED[:total]):
-            report(ctx, case, 'oneshot:' + (ref.classify_blocked(o2, _CODED[:total]) or 'extra_fill_block'), {'total': total})
+        elif o2 != ref.block(src[:total]):
+            report(ctx, case, 'oneshot:' + (ref.classify_blocked(o2, src[:total]) or 'extra_fill_block'), {'total': total})
         ctx.count('block_1014 calls')
-        ctx.case_done(['h', writes, fin], nontrivial=total > 0)
+        ctx.case_done(['h', writes, fin, case.get('content')], nontrivial=total > 0)
         if ok:
             ctx.sample({'writes': writes, 'finaliser': fin, 'file_len': len(ref.block(_CODED[:total]))})
         return
@@ -241,6 +275,10 @@ def require(m):
     missing = need - set(m['classes'].get('write classes driven (model side)', ()))
     if missing:
         reasons.append('write classes never driven: %s' % sorted(missing))
+    if not m['counters'].get('histories with a single write above 64 KiB'):
+        reasons.append('no single write above 64 KiB')
+    if 'filly' not in set(m['classes'].get('content classes', ())):
+        reasons.append('content with fill-byte stretches never used')
     if not m['counters'].get('block_1014 calls'):
         reasons.append('one-shot blocker never called')
     return reasons
